@@ -1,5 +1,6 @@
 """C15 - dynamics follow their equations; the NLS linearisation is exact at the reference point."""
 import functools
+import math
 import json
 
 import numpy as np
@@ -514,7 +515,7 @@ def _sfx(dtype):
 
 
 def _time_tensor(t, kind):
-    return torch.tensor(float(t), dtype=torch.float64) if kind == "f64" else torch.tensor(int(t), dtype=torch.int64)
+    return torch.tensor(float(t), dtype=torch.float64) if kind in ("f64", "frac") else torch.tensor(int(t), dtype=torch.int64)
 
 
 def check_nls_forward(rec, spec, M, x, u, tnow, z, y, tag, dtype="float64"):
@@ -722,12 +723,19 @@ class Nls(Sub):
                 pre = max(pre, 1)
             post = draw(st.sampled_from((0, 0, 1)))
             tc = draw(st.integers(0, 30))
-            tkind = draw(st.sampled_from(("i64", "i64", "f64")))
+            tkind = draw(st.sampled_from(("i64", "i64", "f64", "frac")))
+            tfrac = draw(st.sampled_from((0.5, 0.25, 0.75, 0.125)))
             tstar = tc + pre                      # the system time at which set_refpoint will be called
             if draw(st.sampled_from((True, True, True, False))):
                 off = draw(st.integers(1, 15))
                 tstar = tstar - off if (draw(st.booleans()) and tstar - off >= 0) else tstar + off
-            # tkind "f64": the same integer value handed over as a float64 tensor (non-integer times are not documented)
+            # tkind "f64": the same integer value handed over as a float64 tensor; "frac": a NON-integral reference time t* + tfrac as
+            # a float64 tensor - the statement says A..D are the Jacobians and c1, c2 reproduce f, g "at that point" for the t* given,
+            # and pypose's own LQR / MPC pass t = k dt with a fractional dt (a t* truncated to the integer clock dtype would be
+            # invisible otherwise - seed C15e).  Only the linearisation is asserted for it; for the clock any of unchanged / floor /
+            # ceil is accepted.
+            if tkind == "frac":
+                tstar = tstar + tfrac
             return {"spec": spec, "dtype": draw(st.sampled_from(("float64", "float64", "float32"))),
                     "xs": _point(draw, spec["n"]), "us": _point(draw, spec["m"]), "tstar": tstar, "tkind": tkind,
                     "tc": tc, "tc_how": draw(st.sampled_from(("reset", "systime", "systime_tensor"))), "pre": pre, "has": has,
@@ -740,7 +748,7 @@ class Nls(Sub):
         return (RD.spec_ok(sp_) and len(case["xs"]) == sp_["n"] and len(case["us"]) == sp_["m"]
                 and all(abs(v) <= 4 for v in case["xs"] + case["us"])
                 and (case["pre"] >= 1 or (case["has"][0] and case["has"][1])) and 0 <= case["tstar"] <= 64
-                and float(case["tstar"]).is_integer() and 0 <= case["tc"] <= 64
+                and (float(case["tstar"]).is_integer() or case.get("tkind") == "frac") and 0 <= case["tc"] <= 64
                 and case["delta"] in (0.1, 0.05, 0.02, 0.01) and case.get("dtype", "float64") in tu.TD)
 
     def oracle(self, case, rec):
@@ -780,14 +788,14 @@ class Nls(Sub):
         hs, hi, ht = case["has"]
         xs = _r(case["xs"], dtype) if hs else last[0]
         us = _r(case["us"], dtype) if hi else last[1]
-        ts = (float(case["tstar"]) if case["tkind"] == "f64" else int(case["tstar"])) if ht else ck.t
+        ts = (float(case["tstar"]) if case["tkind"] in ("f64", "frac") else int(case["tstar"])) if ht else ck.t
         tcur = ck.t
         with rec.sut("NLS.set_refpoint"):
             r = system.set_refpoint(state=_vec(xs, dtype) if hs else None, input=_vec(us, dtype) if hi else None,
                                     t=_time_tensor(case["tstar"], case["tkind"]) if ht else None)
         rec.check(r is system, "refpoint:return", "set_refpoint did not return the module")   # documented: "Returns: The self module"
         got = _read_time(rec, system, "set_refpoint")
-        accept = {tcur} | ({int(ts)} if ht else set())
+        accept = {tcur} | ({int(math.floor(ts)), int(math.ceil(ts))} if ht else set())
         if not rec.check(got in accept, "clock:refpoint:nls", "system time %d after set_refpoint at time %d with t=%s"
                          % (got, tcur, ts if ht else None)):
             return
@@ -821,6 +829,8 @@ class Nls(Sub):
             yield dict(case, dtype="float64")
         if case["tkind"] == "f64":
             yield dict(case, tkind="i64", tstar=int(case["tstar"]))
+        if case["tkind"] == "frac":
+            yield dict(case, tkind="f64", tstar=float(int(case["tstar"])))
         if case["tstar"]:
             yield dict(case, tstar=0)
         if any(case["xs"]):
